@@ -206,3 +206,9 @@ package directive
 //@   loop 1 invariant 0 <= i && i <= 30 && s == bstr(b) && len(b) >= 3 && !(49 <= b[0] && b[0] <= 53 && isCode(bstr(b[0:3])))
 //@   loop 1 invariant forall de :: 0 <= de && de < i && de != HTTPResponseCode ==> !strprefix(bstr(b), kwText(de))
 //@   loop 1 decreases 30 - i
+
+//@ func (Directive).BodyErrorIndex
+//@   tag C02 C01
+//@   requires d.BodyCoords.file != nil && d.BodyCoords.begin + i <= len(d.BodyCoords.file.content) && !isnil(d.includeTracer)
+//@   modifies nothing
+//@   ensures ret != nil && ret.file == d.BodyCoords.file && ret.index == d.BodyCoords.begin + i
